@@ -508,6 +508,17 @@ func (fr *frame) applyContract(st *State, bc *BoundContract, args []Val, pos tok
 		u.store(st, c.Idx(sv.Base, sv.Len), et, xv)
 		u.writeCell(st, "bv64", lenCell, c.Add(sv.Len, c.BVu(1, 64)))
 	}
+	for _, ap := range bc.AppendsAll {
+		penv := u.newSpecEnv(bc, st, pre, args, nil)
+		sv := penv.eval(ap[0]).(*SliceV)
+		xs := penv.eval(ap[1]).(*SliceV)
+		et := penv.typeOf(ap[0]).Underlying().(*types.Slice).Elem()
+		lenCell := c.Fld(sv.Base, fGhostLen)
+		fr.frameCheck(st, lenCell, types.Typ[types.Int], pos)
+		fr.frameCheckRange(st, sv.Base, sv.Len, xs.Len, et, pos)
+		u.copyElems(st, sv.Base, sv.Len, pre, xs.Base, xs.Off, xs.Len, et)
+		u.writeCell(st, "bv64", lenCell, c.Add(sv.Len, xs.Len))
+	}
 	// results
 	var results []Val
 	sig := bc.Sig
